@@ -406,7 +406,7 @@ H("enc_finish_flag", ["C03", "C05"], "comp", *ENC, cap_s=600,
 H("enc_finish_any_len", ["C06", "C03", "C05"], "comp", *ENC, cap_s=600,
   obligation="L2 for every length: finish_encoding accepts iff len <= limit and len <= u32::MAX; over the limit => OUT_OF_RANGE (either code when "
              "it is over 4 GiB as well), within the limit but over 4 GiB => RESOURCE_EXHAUSTED; accepted => [flag (1 iff an encoding is in "
-             "force), BE32(len)] with the payload untouched; refused => nothing written",
+             "force), BE32(len)] with the payload untouched",
   functions=["tonic::codec::encode::finish_encoding"],
   bounds="every slice length 5..=isize::MAX (the slice is fabricated over an 8-byte allocation: finish_encoding reads only buf.len() and "
          "writes buf[..5], checked by CBMC's pointer checks), every Option<usize> limit, identity + 3 encodings",
